@@ -233,6 +233,18 @@ def parse(tr):
                              sdvec=(tr["result"]["ysd_vec"] if ("result" in tr and sampled and tr["spec"].get("noise") == "specified") else None),
                              sampled=None if died_in_final else sampled, ncalls=len(calls), complete=(finished and (exc is None or died_in_final)))
     P["hist_final"] = tr["final"]["hist"]
+    # record-time history rows (first record of each (key, iteration) during the loop)
+    rows = {}
+    for e in ev[idx_init + 1:]:
+        if e[0] == "hist" and e[1] in ("loop", "poll", "search"):
+            rows.setdefault(e[4], {}).setdefault(e[2], e[3])
+    hx = []
+    for it in sorted(rows):
+        r = rows[it]
+        if all(k in r for k in ("u", "yval", "fval", "fsd", "func_count", "mesh_size")):
+            hx.append(dict(u=r["u"], y=r["yval"], f=r["fval"], s=r["fsd"], fc=int(r["func_count"]), k=log2_exact(r["mesh_size"])))
+    P["hist_expect"] = hx if [*sorted(rows)] == list(range(len(hx))) else None
+    P["calls_expect"] = [[c.get("u"), (None if (c["out"] is None or c["out"][0] == "fault" or "exc" in c) else c["ret"][0])] for c in calls]
     P["ncalls"] = tr["final"]["ncalls"]
     return P
 
@@ -288,8 +300,10 @@ def x_final(P):
     inc = "XW" if e["u"] is None else "(XL " + clist([xv(e["u"]), xv(e["y"]), xv(e["f"]), xv(e["s"] if e["s"] is not None and not math.isnan(e["s"]) else 0.0)]) + ")"
     yv = "XW" if e["yvec"] is None else xv(e["yvec"])
     sd = "XW" if e["sdvec"] is None else xv(e["sdvec"][:len(P["final_ev"]["obs"])])
-    ncalls = "XW"
-    return "(XL " + clist([ctrl, inc, yv, sd, xv(e["sampled"]), "XW"]) + ")"
+    cl = "XW"
+    if all(c[0] is not None for c in P["calls_expect"]):
+        cl = "(XL " + clist(["(XL " + clist([xv(c[0]), xv(c[1])]) + ")" for c in P["calls_expect"]]) + ")"
+    return "(XL " + clist([ctrl, inc, yv, sd, xv(e["sampled"]), cl]) + ")"
 
 
 def x_state(e, wild="XW"):
@@ -309,7 +323,13 @@ def x_expected(P):
     s0 = P["init_snap"]
     e0 = dict(k=P["k0"], ks=P["ks0"], scount=P["opts"]["ntry"], ssucc=0, spree=0, piter=0, fc=s0["fc"], nrows=s0["Xn"] + 1,
               fin=False, msg=0, exn=False, u=s0["u_best"], y=s0["yval"], f=s0["fval"], s=(s0["fsd"] if s0["fsd"] is not None and not math.isnan(s0["fsd"]) else 0.0))
-    return "(XL " + clist([x_state(e0), "(XL " + clist([x_state(e) for e in P["expect"]]) + ")", "XW", x_final(P)]) + ")"
+    hx = "XW"
+    if P.get("hist_expect") is not None and not P["crashed"] and not P["target_fault"]:
+        def xv(v):
+            return f"(XV {cval(v)})"
+        hx = "(XL " + clist(["(XL " + clist(["(XL " + clist([xv(h["u"]), xv(h["y"]), xv(h["f"]), xv(h["s"] if not math.isnan(h["s"]) else 0.0)]) + ")", xv(h["fc"]), xv(h["k"])]) + ")"
+                             for h in P["hist_expect"]]) + ")"
+    return "(XL " + clist([x_state(e0), "(XL " + clist([x_state(e) for e in P["expect"]]) + ")", hx, x_final(P)]) + ")"
 
 
 def coq_case(P):
